@@ -62,7 +62,7 @@ namespace vf {
 static volatile uint64_t g_case      = ~uint64_t{0};
 static uint64_t          g_seed      = 1;
 static uint64_t          g_fail_cnt  = 0;
-static uint64_t          g_fail_cap  = 200; // printed FAIL lines per process (the rest only counted)
+static uint64_t          g_fail_cap  = 3000; // printed FAIL lines per process (5 per key; the rest only counted)
 static int               g_cpu_limit = 20;  // seconds of process CPU per case
 static bool              g_only      = false;
 static bool              g_verbose   = false;
